@@ -13,7 +13,9 @@ import (
 	"dawgsverif/areas/entityarea"
 	"dawgsverif/areas/frontarea"
 	"dawgsverif/areas/idsetarea"
+	"dawgsverif/areas/optarea"
 	"dawgsverif/areas/reacharea"
+	"dawgsverif/areas/scopearea"
 	"dawgsverif/areas/sqlarea"
 	"dawgsverif/areas/transarea"
 	"dawgsverif/areas/travarea"
@@ -29,7 +31,9 @@ var areas = map[string]map[string]cmd{
 	"dump":    {"child": dumparea.Child, "explore": dumparea.Explore, "roundtrip": dumparea.Roundtrip, "attack": dumparea.Attack},
 	"trav":    {"run": travarea.Run, "pipe": travarea.Pipe},
 	"front":   {"gate": frontarea.Gate, "build": frontarea.Build, "fuzz": frontarea.Fuzz, "faithful": frontarea.Faithful},
+	"opt":     {"export": optarea.Export},
 	"reach":   {"replay": reacharea.Replay},
+	"scope":   {"run": scopearea.Scope},
 	"sql":     {"inject": sqlarea.Inject},
 	"trans":   {"hygiene": transarea.Hygiene, "total": transarea.Total},
 	"walk":    {"generic": walkarea.Generic, "models": walkarea.Models, "copy": walkarea.Copy},
